@@ -77,6 +77,9 @@ func genC17(rt *rapid.T) c17Case {
 		switch k := rapid.IntRange(0, 9).Draw(rt, "opK"); {
 		case k <= 3:
 			op.Kind, op.Set = "set", rapid.IntRange(0, ns-1).Draw(rt, "set")
+			if rapid.IntRange(0, 5).Draw(rt, "badset") == 0 {
+				op.Kind = "badset" // the same routes followed by one that validation refuses: the call fails and must change nothing
+			}
 		case k == 4:
 			op.Kind = "drop"
 		case k == 5:
@@ -103,30 +106,30 @@ type c17Route struct {
 }
 
 type c17Conn struct {
-	id      int
-	conn    net.Conn
-	table   map[string]c17Route
-	msgs    int
-	dropAt  int // close after this many messages (-1 never)
-	gotOpen bool
-	dead    bool
+	id           int
+	conn         net.Conn
+	table        map[string]c17Route
+	msgs         int
+	dropAt       int // close after this many messages (-1 never)
+	gotOpen      bool
+	dead         bool
 	updatesOnBad int
-	bad     bool
-	errs    []string
+	bad          bool
+	errs         []string
 }
 
 type c17Peer struct {
-	ln      net.Listener
-	mu      sync.Mutex
-	conns   []*c17Conn
-	myASN   uint32 // the ASN this peer presents
+	ln         net.Listener
+	mu         sync.Mutex
+	conns      []*c17Conn
+	myASN      uint32 // the ASN this peer presents
 	speakerASN uint32
-	fbasn   bool
-	bad     int
-	stopped bool
-	refuse  bool // hang up on new connections before answering the OPEN
-	opens   int  // OPEN messages received
-	wg      sync.WaitGroup
+	fbasn      bool
+	bad        int
+	stopped    bool
+	refuse     bool // hang up on new connections before answering the OPEN
+	opens      int  // OPEN messages received
+	wg         sync.WaitGroup
 }
 
 func (p *c17Peer) current() *c17Conn {
@@ -430,6 +433,14 @@ func runC17(c c17Case, tr *vw.Trace) *vw.Violation {
 				return vw.Violationf("set-error", "%s: %v", label, err)
 			}
 			last = next
+		case "badset":
+			advs := mkAdvs(c.Sets[op.Set%len(c.Sets)])
+			_, v6, _ := net.ParseCIDR("2001:db8::1/128")
+			advs = append(advs, &bgp.Advertisement{Prefix: v6})
+			if err := sess.Set(advs...); err == nil {
+				return nil // accepted: not the situation this action is about
+			}
+			tr.Class("refused-set")
 		case "drop":
 			if cur := p.current(); cur != nil {
 				cur.conn.Close()
@@ -552,7 +563,7 @@ func TestVerifC17Session(t *testing.T) {
 // without a configured source address) must decode, and NEXT_HOP must be the speaker's address.
 func TestVerifC16Session(t *testing.T) {
 	vw.Run(t, vw.Options{Property: "C16", Engine: "session-stream",
-		Rule: "the C17 loopback scenario (real NewSession / connect / sendUpdates against a scripted peer) with 1..4 route sets and 2..10 actions, half of the sessions configured with a source address: the peer decodes every message with the independent RFC 4271 decoder and checks NEXT_HOP against the connection's local address; non-trivial = >=1 reconnect and a withdraw or attribute-only change",
+		Rule:        "the C17 loopback scenario (real NewSession / connect / sendUpdates against a scripted peer) with 1..4 route sets and 2..10 actions, half of the sessions configured with a source address: the peer decodes every message with the independent RFC 4271 decoder and checks NEXT_HOP against the connection's local address; non-trivial = >=1 reconnect and a withdraw or attribute-only change",
 		Assumptions: []string{"real time over loopback TCP as in the C17 loopback engine"}},
 		func(rt *rapid.T) c17Case {
 			c := genC17(rt)
